@@ -282,7 +282,7 @@ pub fn run(ctx: &Ctx, rep: &mut Report) {
     rep.assumptions.push("beyond K' = 1500 invertibility of A is not re-proved by a reference solve; a C that satisfies all L relations is the RFC's C provided A is invertible (shown by the solver succeeding and by C06 for all 477 K')".into());
     rep.absorb("tables", table_check());
     let max_kp = ctx.tier.pick(300u32, 1500);
-    let n = ctx.tier.pick(2500u64, 40_000);
+    let n = ctx.tier.pick(12_000u64, 60_000);
     rep.absorb(
         "direct",
         run_sharded("C04", "direct", ctx.seed, n, 32, move || strategy(max_kp), check_direct, to_json, signature),
